@@ -29,7 +29,7 @@ theorem c20_ring_blocked_by_suspended_reservation (hn : 0 < n) (hr : ReachableX 
     (`send`: 4, `recv`: 4 or 5, `len`: 1, `reserve`: 2 or 3) -/
 theorem c20_solo_progress (hn : 0 < n) (hr : ReachableX n s) (t : Nat)
     (hothers : ∀ u, u ≠ t → s.thr u = .idle) (ht : s.thr t = .idle) :
-    (∀ v, ∃ r, (run s [.send t v, .step t, .step t, .step t, .step t]).thr t = .done r) ∧
+    (∀ v, ∃ r, (run s [.send t v, .step t, .step t, .step t, .step t, .step t]).thr t = .done r) ∧
     (∃ r, (run s [.recv t, .step t, .step t, .step t, .step t, .step t]).thr t = .done r) ∧
     (run s [.len t, .step t]).thr t = .done (.len (abs s).length) ∧
     ((abs s).length < s.N →
@@ -107,8 +107,8 @@ theorem c20_consumers_unaffected (hn : 0 < n) (hr : ReachableX n s) (t : Nat)
     meanwhile gets `empty`: the hypotheses of `c20_ring_blocked_by_suspended_reservation` hold, and 1 is still spinning
     after 50 more own steps -/
 example : let s := run (init 2) [.reserve 0, .step 0, .step 0, .ack 0, .send 1 7, .step 1, .step 1, .step 1]
-    ReachableX 2 s ∧ s.thr 0 = .rHold 0 ∧ s.thr 1 = .pPublish 7 1 2 ∧
-    (run s (List.replicate 50 (.step 1))).thr 1 = .pPublish 7 1 2 ∧
+    ReachableX 2 s ∧ s.thr 0 = .rHold 0 ∧ s.thr 1 = .pPublish 7 1 1 ∧
+    (run s (List.replicate 50 (.step 1))).thr 1 = .pPublish 7 1 1 ∧
     (run s [.recv 2, .step 2, .step 2, .step 2, .step 2, .step 2]).thr 2 = .done .empty :=
   ⟨reachableX_of_noCancel 2 _ (by intro t; simp), by decide, by decide, by decide, by decide⟩
 
